@@ -216,7 +216,7 @@ def _test_worker(args):
         import signal
         pr = subprocess.Popen(['/verif/tools/baseline.py', wt], stdout=subprocess.PIPE, stderr=subprocess.STDOUT, text=True, start_new_session=True)
         try:
-            pr.communicate(timeout=60)
+            pr.communicate(timeout=int(os.environ.get('MUTSCAN_TIMEOUT', '60')))
             ok = pr.returncode == 0
         except subprocess.TimeoutExpired:
             os.killpg(pr.pid, signal.SIGKILL)
@@ -239,7 +239,7 @@ def tests():
     print('to test', len(todo))
     import multiprocessing as mp
     from concurrent.futures import ProcessPoolExecutor
-    N = 14
+    N = int(os.environ.get('MUTSCAN_N', '14'))
     batches = [(i, todo[i::N]) for i in range(N)]
     with ProcessPoolExecutor(max_workers=N, mp_context=mp.get_context('fork')) as ex:
         for res in ex.map(_test_worker, batches):
